@@ -34,8 +34,8 @@ import sys
 
 sys.path.insert(0, os.path.dirname(os.path.abspath(__file__)))
 from rs2v.driver import translate, TranslateError, token_hash, fn_source   # noqa: E402
-from rs2v.emit import EmitError, NeedsBind                                  # noqa: E402
-from rs2v.rparser import parse_macro_args                                   # noqa: E402
+from rs2v.emit import EmitError, NeedsBind, Emitter, Env                    # noqa: E402
+from rs2v.rparser import parse_macro_args, parse_file, find_items, ParseError   # noqa: E402
 from rs2v.lexer import tokenize                                             # noqa: E402
 
 U8, USZ, CHAR = ("int", "u8"), ("int", "usize"), ("int", "char")
@@ -494,6 +494,62 @@ VOCAB = {
     "opaque": {},
 }
 
+# ---------------------------------------------------------------------------
+# Term::new, the builders, impl Default: a SECOND vocabulary over the whole `struct Term` (Model/Svg.svg_term_full:
+# every field, with per-field setters).  render_svg keeps the entry above (the hand model's four-field record,
+# font_family / padding_px as constants, min_width_px from the oracle); Proofs/SvgGen.v relates the two through
+# the projections svg_tf_term / svg_tf_oracle and the invariant svg_tf_consts.
+TERM_FIELDS = [("palette", PAL), ("fg_color", COLOR), ("bg_color", COLOR), ("background", BOOL),
+               ("font_family", STR), ("min_width_px", USZ), ("padding_px", USZ)]
+TERM_FULL = {"coq": "svg_term_full", "var": "t", "ctor": ("mkSvgTermFull", [f for f, _ in TERM_FIELDS]),
+             "fields": {f: ("svg_tf_" + f, "set_svg_tf_" + f, ty) for f, ty in TERM_FIELDS}}
+# the crate's own colour constants are translated (const_defs), VGA is the palette of Generated/Palette.v
+TERM_CONSTS = [("FG_COLOR", "g_svg_const_fg_color"), ("BG_COLOR", "g_svg_const_bg_color")]
+VOCAB_TERM = dict(VOCAB)
+del VOCAB_TERM["config_param"]
+VOCAB_TERM["structs"] = dict(VOCAB["structs"], Term=TERM_FULL)
+VOCAB_TERM["consts"] = dict(VOCAB["consts"], VGA=("vga", PAL), **{r: (c, COLOR) for r, c in TERM_CONSTS})
+VOCAB_TERM["fns"] = dict(VOCAB["fns"], **{"Color::Ansi": shape("Ansi", [("in", ANSI)], COLOR)})
+VOCAB_TERM["reserved"] = VOCAB["reserved"] + ["vga", "Ansi"] + [c for _, c in TERM_CONSTS]
+TERM_TARGETS = [
+    ("new", "Term", "g_svg_term_new", {}),
+    ("default", "Term", "g_svg_term_default", {"trait": "Default"}),
+    ("palette", "Term", "g_svg_term_palette", {}),
+    ("fg_color", "Term", "g_svg_term_fg_color", {}),
+    ("bg_color", "Term", "g_svg_term_bg_color", {}),
+    ("background", "Term", "g_svg_term_background", {}),
+    ("min_width_px", "Term", "g_svg_term_min_width_px", {}),
+]
+
+
+def squash(s):
+    return "".join(s.split())
+
+
+def const_defs(src):
+    """`const FG_COLOR: anstyle::Color = ..;` / BG_COLOR: the value expression, translated"""
+    try:
+        items = parse_file(src)
+    except ParseError as e:
+        raise TranslateError("parse error: %s" % e)
+    em = Emitter(VOCAB_TERM, items)
+    out = []
+    for rname, cname in TERM_CONSTS:
+        its = find_items(items, "const", rname)
+        if len(its) != 1:
+            raise TranslateError("const %s: %d definitions" % (rname, len(its)))
+        try:
+            if em.ty_of_ast(its[0].ty) != COLOR:
+                raise EmitError("declared type is not anstyle::Color")
+            pr = em.try_pure(its[0].val, Env(em))
+            if pr is None or pr[1] != COLOR:
+                raise EmitError("the value is not a constant anstyle::Color expression of the vocabulary")
+        except EmitError as e:
+            raise TranslateError("const %s: %s" % (rname, e))
+        out.append("(* const %s *)\nDefinition %s : color :=\n  %s.\n" % (rname, cname, pr[0]))
+    return "\n".join(out)
+
+
 SRC = "crates/anstyle-svg/src/lib.rs"
 HEADER = ("(* GENERATED by tools/gen_fn_svg.py (tools/rs2v) from crates/anstyle-svg/src/lib.rs -- do not edit *)")
 REQ = """From Coq Require Import NArith List Bool.
@@ -504,20 +560,13 @@ Local Open Scope N_scope.
 Local Open Scope bool_scope."""
 
 # hand-modelled, pinned by token hash
-PIN_TERM_NEW = "c29524bd097a9348"          # Term::new: the constants behind svg_t_font_family / svg_t_padding (tools/gen_svg.py reads them)
 PIN_WINCON_NEW = "6d04de4a0dc0f8a7"      # WinconBytes::new: Default::default() of a derive = (parser_new, capture_default)
+# the exact list of methods of `impl Term`: font_family / padding_px have no setter, which is what lets render_svg's
+# translation read them as the constants of Term::new (svg_t_font_family / svg_t_padding; Proofs/SvgGen.v proves that
+# Term::new and every builder listed here keep svg_tf_consts).  A new method is a GEN-ERROR: it must be translated too.
 TERM_METHODS = ["new", "palette", "fg_color", "bg_color", "background", "min_width_px", "render_svg"]
-# builder plumbing (`const fn f(mut self, x) -> Self { self.f = x; self }`, `impl Default`): the hand model has no
-# counterpart but the record constructor mkSvgTerm (the correspondence driver builds the term from its four
-# fields); min_width_px is the oracle's svg_o_min_width
-PIN_BUILDERS = {
-    "palette": "029598a52af374f5",
-    "fg_color": "18716bceb917f286",
-    "bg_color": "0f6fa76590a2460e",
-    "background": "320d4ce2d037253d",
-    "min_width_px": "dd5f781b239af3e4",
-    "default": "26b99b30cad16896",
-}
+# the imports the vocabulary depends on: `VGA` is anstyle_lossy's (Generated/Palette.vga), `Palette` the list of 16 rgb values
+TERM_USES = ["pub use anstyle_lossy::palette::Palette;", "pub use anstyle_lossy::palette::VGA;"]
 
 
 def impl_fn_names(src, name):
@@ -556,18 +605,13 @@ def register(generators, gm):
         try:
             src = gm.read(SRC)
             wsrc = gm.read("crates/anstream/src/adapter/wincon.rs")
-            h = token_hash(fn_source(src, "new", "Term"))
-            if h != PIN_TERM_NEW:
-                raise TranslateError("Term::new changed (token hash %s, pinned %s): font_family / padding_px are constants of the "
-                                     "hand model read from it" % (h, PIN_TERM_NEW))
             names = impl_fn_names(src, "Term")
             if names != TERM_METHODS:
                 raise TranslateError("impl Term: methods %s, expected %s (a new setter would make a constant field variable)" % (names, TERM_METHODS))
-            for fname, pin in PIN_BUILDERS.items():
-                h = token_hash(fn_source(src, fname, "Term"))
-                if h != pin:
-                    raise TranslateError("Term::%s changed (token hash %s, pinned %s): builder plumbing, modelled by the record "
-                                         "constructor mkSvgTerm" % (fname, h, pin))
+            sq = squash(gm.strip_comments(src))
+            for need in TERM_USES:
+                if squash(need) not in sq:
+                    raise TranslateError("`%s` not found (the vocabulary of Term::new depends on it)" % need)
             h = token_hash(fn_source(wsrc, "new", "WinconBytes"))
             if h != PIN_WINCON_NEW:
                 raise TranslateError("WinconBytes::new changed (token hash %s, pinned %s): modelled as a fresh parser and capture" % (h, PIN_WINCON_NEW))
@@ -578,6 +622,10 @@ def register(generators, gm):
                 if tgt[0] == "color_styles":
                     # `-> impl Iterator<Item = (String, String)>`: the BTreeMap's entries in key order
                     shapes["color_styles"]["ret"] = ("list", ("tuple", (STR, STR)))
+            # Term::new, impl Default, the builders: over the whole struct (VOCAB_TERM), after the colour constants
+            out.append(const_defs(src))
+            tshapes = {}
+            out.append(translate(src, VOCAB_TERM, TERM_TARGETS, "", "", tshapes).lstrip("\n"))
             return "\n".join(out) + "\n"
         except TranslateError as e:
             raise gm.GenError(str(e))
